@@ -29,10 +29,11 @@ func init() {
 			"textual forms (CONCAT, CHANGETYPE string) are asserted for strings, booleans and numbers whose shortest decimal text has no exponent",
 			"base / algorithm / type names are given in lower case as the statement spells them; ENCODE/HASH of NULL is not asserted (NULL is not a scalar value)",
 		},
-		Floor:         c18Kinds,
+		Floor:         append([]string{"elementat.big"}, c18Kinds...),
 		MinNontrivial: 100,
 		Phases: []fw.Phase{
 			{Name: "fn", N: func(t fw.Tier) int { return pick(t, 30000, 1000000) }, Run: c18Run},
+			{Name: "big", N: func(t fw.Tier) int { return pick(t, 4, 24) }, Run: c18Big, Batch: 2},
 		},
 		Witness: sqlWitness,
 	})
@@ -391,4 +392,49 @@ func c18Run(c *fw.Case) {
 		return
 	}
 	c.Nontrivial(sql + val.Canon(row))
+}
+
+
+// c18Big: FIRST / LAST / ELEMENTAT over an array of more than a million
+// elements, at indexes whose conventional float text carries an exponent.
+func c18Big(c *fw.Case) {
+	n := 1000003 + c.Intn(50)
+	arr := make([]any, n)
+	for i := range arr {
+		arr[i] = float64(i)
+	}
+	doc := map[string]any{"t": []any{map[string]any{"big": arr}}}
+	idx := []int{1000000, 1000001, n - 1, 999999, 1e6 + 2, 123456, 0}
+	i := idx[c.Idx%len(idx)]
+	sql := fmt.Sprintf("SELECT ELEMENTAT(big, %d) AS v, LAST(big) AS l, FIRST(big) AS f FROM t", i)
+	if c.Idx%3 == 2 {
+		sql = fmt.Sprintf("SELECT ELEMENTAT(big, %d) AS v, LAST(big) AS l, FIRST(big) AS f FROM t", n+c.Intn(3))
+		i = -1
+	}
+	o := Run(doc, sql)
+	c.Evals(1)
+	c.Feature("elementat.big")
+	c.Sample(map[string]any{"sql": sql, "array_len": n})
+	det := map[string]any{"sql": sql, "array_len": n, "observed": short(fmt.Sprint(o.Describe()), 300)}
+	if o.Panic != nil {
+		c.Violate("panic", fmt.Sprintf("panicked: %v", o.Panic), det)
+		return
+	}
+	if i < 0 {
+		if o.Err == nil {
+			c.Violate("no-error", "an index outside a million-element array must be rejected with an error", det)
+		}
+		c.Nontrivial(sql)
+		return
+	}
+	if o.Err != nil || len(o.Rows) != 1 {
+		c.Violate("error", fmt.Sprintf("ELEMENTAT(arr, %d) over %d elements failed: %v", i, n, o.Err), det)
+		return
+	}
+	row, _ := o.Rows[0].(map[string]any)
+	if !val.Equal(val.Deref(row["v"]), float64(i)) || !val.Equal(val.Deref(row["l"]), float64(n-1)) || !val.Equal(val.Deref(row["f"]), 0.0) {
+		c.Violate("value", fmt.Sprintf("ELEMENTAT(arr, %d) = %v, LAST = %v, FIRST = %v over [0 .. %d]", i, row["v"], row["l"], row["f"], n-1), det)
+		return
+	}
+	c.Nontrivial(sql)
 }
